@@ -214,8 +214,8 @@ func c15DrawRole(rt *rapid.T, m *c15Mount) *c15Role {
 	r.AllowLocalhost = vxChance(rt, "allow_localhost", 50)
 	r.AllowAnyName = vxChance(rt, "allow_any_name", 12)
 	r.EnforceHostnames = vxChance(rt, "enforce_hostnames", 65)
-	r.AllowIPSANs = vxChance(rt, "allow_ip_sans", 65)
-	r.IPCIDRs = rapid.SampledFrom([][]string{nil, nil, {"10.0.0.0/8"}, {"192.168.0.0/16", "fd00::/8"}}).Draw(rt, "allowed_ip_sans_cidr")
+	r.AllowIPSANs = vxChance(rt, "allow_ip_sans", 75)
+	r.IPCIDRs = rapid.SampledFrom([][]string{{"10.0.0.0/8"}, nil, {"192.168.0.0/16", "fd00::/8"}, nil}).Draw(rt, "allowed_ip_sans_cidr")
 	r.URISANs = rapid.SampledFrom([][]string{nil, nil, {"spiffe://example.com/*"}, {"https://*.example.com/x"}, {"*"}}).Draw(rt, "allowed_uri_sans")
 	r.OtherSANs = rapid.SampledFrom([][]string{nil, nil, {"*"}, {"1.3.6.1.4.1.311.20.2.3;UTF8:*"}, {"1.3.6.1.4.1.311.20.2.3;utf8:*@example.com"}}).Draw(rt, "allowed_other_sans")
 	switch n := rapid.IntRange(0, 19).Draw(rt, "key_type"); {
@@ -231,7 +231,7 @@ func c15DrawRole(rt *rapid.T, m *c15Mount) *c15Role {
 		r.KeyType = "any"
 	}
 	r.MaxTTL = rapid.SampledFrom([]time.Duration{0, 0, time.Hour, 6 * time.Hour, 72 * time.Hour, 2000 * time.Hour}).Draw(rt, "max_ttl")
-	r.TTL = rapid.SampledFrom([]time.Duration{0, 0, 30 * time.Minute, time.Hour, 12 * time.Hour}).Draw(rt, "ttl")
+	r.TTL = rapid.SampledFrom([]time.Duration{0, 0, 30 * time.Minute, time.Hour, 12 * time.Hour, 100 * time.Hour}).Draw(rt, "ttl")
 	if r.MaxTTL > 0 && r.TTL > r.MaxTTL {
 		r.TTL = r.MaxTTL // the API refuses ttl > max_ttl; construct a valid role
 	}
@@ -242,7 +242,7 @@ func c15DrawRole(rt *rapid.T, m *c15Mount) *c15Role {
 	if vxChance(rt, "role_not_after", 6) {
 		r.NotAfter = rapid.SampledFrom([]string{"2030-01-01T00:00:00Z", "9999-12-31T23:59:59Z"}).Draw(rt, "not_after")
 	}
-	r.NotAfterBound = rapid.SampledFrom([]string{"", "", "permit", "ttl-limited", "ttl-limited", "forbid", "2027-06-01T00:00:00Z"}).Draw(rt, "not_after_bound")
+	r.NotAfterBound = rapid.SampledFrom([]string{"", "ttl-limited", "permit", "ttl-limited", "", "forbid", "2027-06-01T00:00:00Z", "ttl-limited"}).Draw(rt, "not_after_bound")
 	r.NotBeforeBound = rapid.SampledFrom([]string{"", "permit", "duration", "forbid"}).Draw(rt, "not_before_bound")
 	switch rapid.IntRange(0, 5).Draw(rt, "key_usage") {
 	case 0, 1: // not sent
@@ -463,8 +463,11 @@ type c15Req struct {
 	Key       int
 	TTL       time.Duration
 	NotAfter  string
-	NotBefore string
-	ExcludeCN bool
+	// NotAfterOff != 0: not_after is sent as (time of the request + offset); the offset is the generated value
+	NotAfterOff time.Duration
+	Window      string // directed ttl-limited class: below-clamped / in-clamp-window / above-unclamped / ""
+	NotBefore   string
+	ExcludeCN   bool
 	KeyType   string
 	KeyBits   int
 	csrPEM    string
@@ -582,7 +585,7 @@ func c15DrawReq(rt *rapid.T, m *c15Mount, r *c15Role) *c15Req {
 			return c15OtherSANAllowed(r, c15OtherName{OID: p[0], Value: strings.SplitN(p[1], ":", 2)[1]})
 		})
 	}
-	if vxChance(rt, "withIP", 15) && len(ipPool) > 0 {
+	if vxChance(rt, "withIP", 25) && len(ipPool) > 0 {
 		q.IPs = rapid.SliceOfNDistinct(rapid.SampledFrom(ipPool), 1, min(2, len(ipPool)), rapid.ID[string]).Draw(rt, "ip_sans")
 	}
 	if vxChance(rt, "withURI", 10) && len(uriPool) > 0 {
@@ -595,12 +598,39 @@ func c15DrawReq(rt *rapid.T, m *c15Mount, r *c15Role) *c15Req {
 	if mode == "legit" && lifetime >= 8 && r.NotAfterBound != "" && r.NotAfterBound != "permit" && !q.verbatim() {
 		lifetime = 4
 	}
-	switch lifetime {
-	case 0, 1, 2, 3:
-	case 4, 5, 6, 7:
+	// role TTL arithmetic of the documentation: ttl = role ttl or mount default, clamped to role max_ttl or mount max
+	unclamped, ceiling := c15MountDefault, m.cfg.MountMax
+	if r.TTL > 0 {
+		unclamped = r.TTL
+	}
+	if r.MaxTTL > 0 {
+		ceiling = r.MaxTTL
+	}
+	clamped := unclamped
+	if clamped > ceiling {
+		clamped = ceiling
+	}
+	directed := r.NotAfterBound == "ttl-limited" && !q.verbatim() && q.Endpoint != "sign-intermediate" && r.NotAfter == "" && vxChance(rt, "directedNotAfter", 60)
+	switch {
+	case directed:
+		// not_after just below / just above now+clamped ttl and now+unclamped ttl, and in between
+		offs := []time.Duration{clamped - 2*time.Minute, clamped + 2*time.Minute, (clamped + unclamped) / 2, unclamped - 2*time.Minute, unclamped + 2*time.Minute, clamped / 2}
+		q.NotAfterOff = rapid.SampledFrom(offs).Draw(rt, "notAfterOffset")
+		switch {
+		case q.NotAfterOff <= clamped:
+			q.Window = "below-clamped"
+		case q.NotAfterOff <= unclamped:
+			q.Window = "in-clamp-window"
+		default:
+			q.Window = "above-unclamped"
+		}
+	case lifetime <= 3:
+	case lifetime <= 7:
 		q.TTL = rapid.SampledFrom([]time.Duration{10 * time.Minute, 2 * time.Hour, 30 * time.Hour, 100 * time.Hour, 5000 * time.Hour}).Draw(rt, "reqTTL")
-	default:
+	case lifetime == 8:
 		q.NotAfter = rapid.SampledFrom([]string{"2026-12-31T00:00:00Z", "2030-01-01T00:00:00Z", "9999-12-31T23:59:59Z", "2020-01-01T00:00:00Z"}).Draw(rt, "reqNotAfter")
+	default:
+		q.NotAfterOff = rapid.SampledFrom([]time.Duration{20 * time.Minute, 5 * time.Hour, 30 * time.Hour, 80 * time.Hour, 1000 * time.Hour}).Draw(rt, "notAfterOffset")
 	}
 	nbP := 8
 	if mode == "legit" && r.NotBeforeBound == "forbid" {
@@ -829,14 +859,32 @@ func TestVerif_C15_Issue(t *testing.T) {
 		if err != nil {
 			rt.Fatalf("harness: building mount %+v: %v", cfg, err)
 		}
-		role := c15DrawRole(rt, m)
+		role0 := c15DrawRole(rt, m)
+		// 0-2 PATCHes of generated fields; the model changes field by field, only where the patch says so
+		role := role0.clone()
+		var patches []*c15Patch
+		if vxChance(rt, "patchRole", 55) {
+			np := rapid.IntRange(1, 2).Draw(rt, "nPatches")
+			for i := 0; i < np; i++ {
+				p := c15DrawPatch(rt, role)
+				p.apply(role)
+				patches = append(patches, p)
+			}
+		}
 		nreq := rapid.IntRange(1, 5).Draw(rt, "nRequests")
 		reqs := make([]*c15Req, nreq)
 		for i := range reqs {
 			reqs[i] = c15DrawReq(rt, m, role)
 		}
-		if _, err := vxWrite(m.b, m.s, "roles/r", role.data()); err != nil {
-			rt.Fatalf("harness: role refused: %v\nrole=%+v", err, role.data())
+		if _, err := vxWrite(m.b, m.s, "roles/r", role0.data()); err != nil {
+			rt.Fatalf("harness: role refused: %v\nrole=%+v", err, role0.data())
+		}
+		if len(role0.IPCIDRs) > 0 {
+			rec.Class("role-created-with-ip-cidrs", 1)
+		}
+		c15ApplyPatches(rt, rec, m, role0, patches)
+		if len(role.IPCIDRs) > 0 && role.AllowIPSANs {
+			rec.Class("role-restricts-ip-sans-to-cidrs", 1)
 		}
 		for _, q := range reqs {
 			c15RunOne(rt, rec, m, role, q)
@@ -847,6 +895,9 @@ func TestVerif_C15_Issue(t *testing.T) {
 }
 
 func c15RunOne(rt *rapid.T, rec *verifx.Recorder, m *c15Mount, role *c15Role, q *c15Req) {
+	if q.NotAfterOff != 0 {
+		q.NotAfter = time.Now().Add(q.NotAfterOff).UTC().Truncate(time.Second).Format(time.RFC3339)
+	}
 	if q.usesCSR() {
 		if err := q.buildCSR(); err != nil {
 			rt.Fatalf("harness: CSR: %v (%+v)", err, q)
@@ -910,6 +961,20 @@ func c15RunOne(rt *rapid.T, rec *verifx.Recorder, m *c15Mount, role *c15Role, q 
 		nontrivial = true
 	}
 
+	ipOutOfRange := false
+	if eff != nil && !verbatim && len(eff.IPCIDRs) > 0 && eff.AllowIPSANs {
+		_, _, wantIPs, _ := c15Sources(eff, q)
+		for _, ip := range wantIPs {
+			if !c15IPAllowed(eff, net.ParseIP(ip)) {
+				ipOutOfRange = true
+			}
+		}
+	}
+	if ipOutOfRange {
+		nontrivial = true
+		rec.Class("request-ip-san-outside-role-cidrs", 1)
+	}
+
 	t0 := time.Now()
 	var resp *logical.Response
 	var err error
@@ -943,7 +1008,11 @@ func c15RunOne(rt *rapid.T, rec *verifx.Recorder, m *c15Mount, role *c15Role, q 
 	for _, n := range q.Names {
 		rec.Class("name:"+n.Class, 1)
 	}
-	digest := verifx.Digest(fmt.Sprintf("%+v", m.cfg), fmt.Sprint(role.data()), path, q.CN, q.Alts, q.IPs, q.URIs, q.Others, q.CsrCN, q.CsrNames, q.CsrCA, q.CsrKU, q.TTL, q.NotAfter, q.Key)
+	digestNA := q.NotAfter
+	if q.NotAfterOff != 0 {
+		digestNA = ""
+	}
+	digest := verifx.Digest(fmt.Sprintf("%+v", m.cfg), fmt.Sprint(role.data()), path, q.CN, q.Alts, q.IPs, q.URIs, q.Others, q.CsrCN, q.CsrNames, q.CsrCA, q.CsrKU, q.TTL, digestNA, q.NotAfterOff, q.Key)
 
 	if err != nil || resp == nil {
 		if err == nil {
@@ -955,6 +1024,9 @@ func c15RunOne(rt *rapid.T, rec *verifx.Recorder, m *c15Mount, role *c15Role, q 
 		}
 		rec.Case(q.Endpoint+":refused", nontrivial, digest, sample)
 		rec.Class("refused", 1)
+		if q.Window != "" {
+			rec.Class("ttl-limited:"+q.Window+":refused", 1)
+		}
 		rec.Class("mode:"+q.Mode+":refused", 1)
 		if q.Mode == "legit" {
 			rec.Class("legit-refusal:"+c15RefusalClass(err), 1)
@@ -976,6 +1048,9 @@ func c15RunOne(rt *rapid.T, rec *verifx.Recorder, m *c15Mount, role *c15Role, q 
 	}
 	rec.Case(q.Endpoint+":issued", nontrivial, digest, sample)
 	rec.Class("issued", 1)
+	if q.Window != "" {
+		rec.Class("ttl-limited:"+q.Window+":issued", 1)
+	}
 	rec.Class("mode:"+q.Mode+":issued", 1)
 	if eff != nil && eff.AllowAnyName {
 		rec.Class("issued-under-allow_any_name", 1)
@@ -1050,7 +1125,7 @@ func c15RunOne(rt *rapid.T, rec *verifx.Recorder, m *c15Mount, role *c15Role, q 
 			fail("notafter-forbidden", "not_after_bound=forbid but a request carrying not_after=%s was served", q.NotAfter)
 		case "ttl-limited":
 			if cert.NotAfter.After(t1.Add(ttlEff + skew)) {
-				fail("notafter-beyond-ttl-limit", "not_after_bound=ttl-limited (ttl %s) but NotAfter is %s from now", ttlEff, cert.NotAfter.Sub(t1).Round(time.Minute))
+				fail("notafter-beyond-ttl-limit", "not_after_bound=ttl-limited: effective ttl %s (role ttl %s, role max_ttl %s, mount default %s, mount max %s) but a request with not_after = now+%s got NotAfter %s from now", ttlEff, role.TTL, role.MaxTTL, c15MountDefault, m.cfg.MountMax, q.NotAfterOff, cert.NotAfter.Sub(t1).Round(time.Minute))
 			}
 		default:
 			ts, _ := time.Parse(time.RFC3339, naBound)
@@ -1259,4 +1334,221 @@ func c15EffectiveNames(r *c15Role, q *c15Req) []string {
 	}
 	sort.Strings(out)
 	return out
+}
+
+// ---- role PATCH
+
+type c15Patch struct {
+	data  map[string]any
+	apply func(*c15Role)
+}
+
+func (r *c15Role) clone() *c15Role {
+	c := *r
+	return &c
+}
+
+// c15DrawPatch draws one PATCH of 1-3 fields that is valid against the current model r (e.g. ttl <= max_ttl).
+// apply changes exactly the fields named in the patch.
+func c15DrawPatch(rt *rapid.T, r *c15Role) *c15Patch {
+	p := &c15Patch{data: map[string]any{}}
+	var steps []func(*c15Role)
+	cur := r.clone() // constraints between fields of the same patch
+	n := rapid.IntRange(1, 3).Draw(rt, "nPatchFields")
+	fields := []string{"ttl", "allow_subdomains", "max_ttl", "key_usage", "allowed_domains", "allowed_ip_sans_cidr", "allow_bare_domains", "allow_glob_domains",
+		"allow_wildcard_certificates", "allow_localhost", "enforce_hostnames", "allow_ip_sans", "allowed_uri_sans", "ext_key_usage", "server_flag", "client_flag",
+		"not_after_bound", "not_before_duration", "cn_validations", "use_csr_sans", "require_cn", "key_type", "allowed_other_sans"}
+	for i := 0; i < n; i++ {
+		f := rapid.SampledFrom(fields).Draw(rt, "patchField")
+		if _, dup := p.data[f]; dup {
+			continue
+		}
+		boolField := func(set func(*c15Role, bool)) {
+			v := rapid.Bool().Draw(rt, f)
+			p.data[f] = v
+			steps = append(steps, func(m *c15Role) { set(m, v) })
+		}
+		switch f {
+		case "ttl":
+			opts := []time.Duration{2 * time.Hour, 30 * time.Minute, 100 * time.Hour, 0}
+			v := rapid.SampledFrom(opts).Draw(rt, f)
+			if cur.MaxTTL > 0 && v > cur.MaxTTL {
+				v = cur.MaxTTL
+			}
+			cur.TTL = v
+			p.data[f] = int(v / time.Second)
+			steps = append(steps, func(m *c15Role) { m.TTL = v })
+		case "max_ttl":
+			v := rapid.SampledFrom([]time.Duration{6 * time.Hour, time.Hour, 72 * time.Hour, 0}).Draw(rt, f)
+			if v > 0 && cur.TTL > v {
+				v = cur.TTL
+			}
+			cur.MaxTTL = v
+			p.data[f] = int(v / time.Second)
+			steps = append(steps, func(m *c15Role) { m.MaxTTL = v })
+		case "allow_subdomains":
+			boolField(func(m *c15Role, v bool) { m.AllowSub = v })
+		case "allow_bare_domains":
+			boolField(func(m *c15Role, v bool) { m.AllowBare = v })
+		case "allow_glob_domains":
+			boolField(func(m *c15Role, v bool) { m.AllowGlob = v })
+		case "allow_localhost":
+			boolField(func(m *c15Role, v bool) { m.AllowLocalhost = v })
+		case "enforce_hostnames":
+			boolField(func(m *c15Role, v bool) { m.EnforceHostnames = v })
+		case "allow_ip_sans":
+			boolField(func(m *c15Role, v bool) { m.AllowIPSANs = v })
+		case "server_flag":
+			boolField(func(m *c15Role, v bool) { m.ServerFlag = v })
+		case "client_flag":
+			boolField(func(m *c15Role, v bool) { m.ClientFlag = v })
+		case "use_csr_sans":
+			boolField(func(m *c15Role, v bool) { m.UseCSRSANs = v })
+		case "require_cn":
+			boolField(func(m *c15Role, v bool) { m.RequireCN = v })
+		case "allow_wildcard_certificates":
+			v := rapid.Bool().Draw(rt, f)
+			p.data[f] = v
+			steps = append(steps, func(m *c15Role) { b := v; m.AllowWildcard = &b })
+		case "key_usage":
+			v := rapid.SampledFrom([][]string{{"DigitalSignature"}, {}, {"DigitalSignature", "KeyEncipherment"}, {"CertSign"}}).Draw(rt, f)
+			p.data[f] = append([]string{}, v...)
+			steps = append(steps, func(m *c15Role) { m.KeyUsageSent, m.KeyUsage = true, v })
+		case "ext_key_usage":
+			v := rapid.SampledFrom([][]string{{}, {"CodeSigning"}, {"Any"}}).Draw(rt, f)
+			p.data[f] = append([]string{}, v...)
+			steps = append(steps, func(m *c15Role) { m.ExtKeyUsage = v })
+		case "allowed_domains":
+			nd := rapid.IntRange(1, 2).Draw(rt, "nPatchDomains")
+			var v []string
+			for j := 0; j < nd; j++ {
+				if vxChance(rt, "globDomain", 35) {
+					v = append(v, rapid.SampledFrom(c15GlobDomains).Draw(rt, "domain"))
+				} else {
+					v = append(v, rapid.SampledFrom(c15BaseDomains).Draw(rt, "domain"))
+				}
+			}
+			p.data[f] = append([]string{}, v...)
+			steps = append(steps, func(m *c15Role) { m.AllowedDomains = v })
+		case "allowed_ip_sans_cidr":
+			v := rapid.SampledFrom([][]string{{"10.0.0.0/8"}, {}, {"192.168.0.0/16", "fd00::/8"}}).Draw(rt, f)
+			p.data[f] = append([]string{}, v...)
+			steps = append(steps, func(m *c15Role) { m.IPCIDRs = v })
+		case "allowed_uri_sans":
+			v := rapid.SampledFrom([][]string{{"spiffe://example.com/*"}, {}, {"*"}}).Draw(rt, f)
+			p.data[f] = append([]string{}, v...)
+			steps = append(steps, func(m *c15Role) { m.URISANs = v })
+		case "allowed_other_sans":
+			v := rapid.SampledFrom([][]string{{"1.3.6.1.4.1.311.20.2.3;UTF8:*"}, {}, {"*"}}).Draw(rt, f)
+			p.data[f] = append([]string{}, v...)
+			steps = append(steps, func(m *c15Role) { m.OtherSANs = v })
+		case "not_after_bound":
+			v := rapid.SampledFrom([]string{"ttl-limited", "permit", "forbid", "2027-06-01T00:00:00Z"}).Draw(rt, f)
+			p.data[f] = v
+			steps = append(steps, func(m *c15Role) { m.NotAfterBound = v })
+		case "not_before_duration":
+			v := rapid.SampledFrom([]time.Duration{10 * time.Second, 5 * time.Minute, 2 * time.Hour}).Draw(rt, f)
+			p.data[f] = int(v / time.Second)
+			steps = append(steps, func(m *c15Role) { d := v; m.NotBeforeDur = &d })
+		case "cn_validations":
+			v := rapid.SampledFrom([][]string{{"email", "hostname"}, {"hostname"}, {"disabled"}}).Draw(rt, f)
+			p.data[f] = append([]string{}, v...)
+			steps = append(steps, func(m *c15Role) { m.CNValidations = v })
+		case "key_type": // always together with key_bits: the stored bits of another key type would be refused
+			kt := rapid.SampledFrom([]string{"ec", "ed25519", "any"}).Draw(rt, f)
+			p.data["key_type"], p.data["key_bits"] = kt, 0
+			steps = append(steps, func(m *c15Role) { m.KeyType, m.KeyBits = kt, 0 })
+		}
+	}
+	p.apply = func(m *c15Role) {
+		for _, st := range steps {
+			st(m)
+		}
+	}
+	return p
+}
+
+// c15ApplyPatches sends the PATCHes. Oracle: every field of the role as read back that the patch does not
+// name is exactly what it was before the patch; every field it names reads back as the patched value.
+func c15ApplyPatches(rt *rapid.T, rec *verifx.Recorder, m *c15Mount, role0 *c15Role, patches []*c15Patch) {
+	if len(patches) == 0 {
+		return
+	}
+	model := role0.clone()
+	for _, p := range patches {
+		before, err := vxRead(m.b, m.s, "roles/r")
+		if err != nil || before == nil {
+			rt.Fatalf("harness: reading role: %v", err)
+		}
+		if _, err := vxReq(m.b, m.s, logical.PatchOperation, "roles/r", p.data); err != nil {
+			rt.Fatalf("harness: role PATCH %v refused: %v (role %v)", p.data, err, model.data())
+		}
+		after, err := vxRead(m.b, m.s, "roles/r")
+		if err != nil || after == nil {
+			rt.Fatalf("harness: reading role: %v", err)
+		}
+		rec.Class("role-patches", 1)
+		_, touchesCIDR := p.data["allowed_ip_sans_cidr"]
+		if len(model.IPCIDRs) > 0 && !touchesCIDR {
+			rec.Class("role-patches-on-cidr-role-not-naming-the-cidrs", 1)
+		}
+		keys := make([]string, 0, len(before.Data))
+		for k := range before.Data {
+			keys = append(keys, k)
+		}
+		sort.Strings(keys)
+		for _, k := range keys {
+			pv, named := p.data[k]
+			got := c15Canon(after.Data[k])
+			if !named {
+				if _, kt := p.data["key_type"]; kt && k == "signature_bits" {
+					continue // stored as the default of the key type when it was left at 0: derived from key_type
+				}
+				if was := c15Canon(before.Data[k]); got != was {
+					rec.Violation(rt, "role-field-changed-by-unrelated-patch", map[string]any{"role_before_patch": model.data(), "patch": p.data, "field": k, "before": was, "after": got},
+						"PATCH roles/r %v changed field %s, which it does not name, from %s to %s", c15PatchKeys(p.data), k, was, got)
+				}
+				continue
+			}
+			if k == "key_bits" {
+				continue // 0 is stored as the default size of the key type
+			}
+			if want := c15Canon(pv); got != want {
+				rec.Violation(rt, "role-patch-not-applied", map[string]any{"role_before_patch": model.data(), "patch": p.data, "field": k, "want": want, "after": got},
+					"PATCH roles/r set %s=%s but the role reads back %s", k, want, got)
+			}
+		}
+		p.apply(model)
+	}
+}
+
+func c15PatchKeys(d map[string]any) []string {
+	ks := make([]string, 0, len(d))
+	for k := range d {
+		ks = append(ks, k)
+	}
+	sort.Strings(ks)
+	return ks
+}
+
+// c15Canon renders a role field for comparison: lists as [a b], durations/ints as decimal seconds, *bool as bool.
+func c15Canon(v any) string {
+	switch x := v.(type) {
+	case nil:
+		return "<nil>"
+	case *bool:
+		if x == nil {
+			return "<nil>"
+		}
+		return fmt.Sprint(*x)
+	case *int:
+		if x == nil {
+			return "<nil>"
+		}
+		return fmt.Sprint(*x)
+	case []string:
+		return fmt.Sprint(append([]string{}, x...))
+	default:
+		return fmt.Sprint(v)
+	}
 }
